@@ -2,3 +2,16 @@
 #[path = "../../gen/src/macros_gen.rs"]
 mod macros_gen;
 pub use macros_gen::*;
+
+/// Hand-written fixtures for macro forms the generator does not enumerate.
+pub mod manual {
+    #[inline(never)]
+    pub fn probe_m0() -> u64 {
+        0
+    }
+
+    /// `record_all!` with a strict subset of the declared fields, not starting at the first one.
+    pub fn record_all_subset(span: &tracing::Span) {
+        tracing::record_all!(span, second = probe_m0());
+    }
+}
